@@ -442,5 +442,6 @@ int main(int argc, char *argv[])
 
     /* Output the file footer */
     printf("#endif\n");
+    printf("%s", noexecstack_note);
     return 0;
 }
